@@ -162,6 +162,33 @@ def make_case(r):
         rules = [realrun.rule('set:@SETFILE@', 1, 'bug\n', ''),
                  realrun.rule('all', 0, 'ok\n', '')]
         chain = 'rename'
+    if chain is None and r.random() < 0.08:
+        # A name that was declared when the hierarchical phase began is gone
+        # by the time a mutator invents it anew: T0 declares v and _v; only
+        # T0, T1 (the first three commands of T0: several commands go at
+        # once, which only the binary reduction of the hierarchical phase
+        # proposes) and T2 (bit-width of v reduced through a new constant
+        # _v) are accepted.  Whatever the worker processes remember about
+        # the input they were started with must not keep T2 from being
+        # found.
+        v = r.choice(['v', 'w', 'x1', 'bv_var'])
+        w = r.choice([8, 16, 32])
+        rel = r.choice(['=', 'bvule', 'bvsge'])
+        t0 = (f'(set-logic QF_BV)\n(declare-const {v} (_ BitVec {w}))\n'
+              f'(assert ({rel} {v} {v}))\n'
+              f'(declare-const _{v} (_ BitVec {w}))\n'
+              f'(assert ({rel} _{v} _{v}))\n(check-sat)\n(exit)\n')
+        t1 = (f'(set-logic QF_BV)\n(declare-const {v} (_ BitVec {w}))\n'
+              f'(assert ({rel} {v} {v}))\n')
+        t2 = (f'(set-logic QF_BV)\n(declare-const _{v} (_ BitVec 1))\n'
+              f'(define-fun {v} () (_ BitVec {w}) ((_ zero_extend {w - 1}) '
+              f'_{v}))\n(assert ({rel} {v} {v}))\n')
+        text = t0
+        set_digests = sorted({refreader.token_digest(t)
+                              for t in (t0, t1, t2)})
+        rules = [realrun.rule('set:@SETFILE@', 1, 'bug\n', ''),
+                 realrun.rule('all', 0, 'ok\n', '')]
+        chain = 'reborn'
     if chain is None and r.random() < 0.15:
         # A proposal that only the first (prelude) pass can make - binary
         # reduction restricted to assert commands - becomes applicable after
@@ -192,9 +219,9 @@ def make_case(r):
         rules = realrun.simple_spec(pred)
         chain = 'prelude'
     strat = r.choice(['hierarchical', 'hybrid'])
-    if chain and chain not in ('indexed', 'rename'):
+    if chain and chain not in ('indexed', 'rename', 'reborn'):
         strat = 'hierarchical'
-    if chain == 'rename':
+    if chain in ('rename', 'reborn'):
         strat = 'hybrid'
     j = r.choice([1, 2, 4, 8])
     slow_accept = False
@@ -219,6 +246,8 @@ def make_case(r):
     toggles = []
     if chain == 'prelude':
         groups = [f'--no-{g}' if g != 'core' else '--core' for g in GROUPS]
+    elif chain == 'reborn':
+        groups = [f'--{g}' for g in GROUPS]
     elif chain and chain not in ('indexed', 'rename') and r.random() < 0.5:
         groups = [f'--no-{g}' for g in GROUPS] + ['--erase-node']
         if chain == 'string':
@@ -242,7 +271,7 @@ def make_case(r):
         inj = None
         delay = None
     return text, rules, opts, inj, delay, {
-        'set_digests': set_digests if chain == 'rename' else None,
+        'set_digests': set_digests if chain in ('rename', 'reborn') else None,
         'input': text, 'rules': rules, 'strategy': strat, 'jobs': j,
         'inject': inj, 'delay': delay, 'mutator_options': groups + toggles,
         'chain': chain, 'slow_accept': slow_accept}
@@ -273,6 +302,8 @@ def run_case(res, base, case, idx, second_run):
     res.count('runs')
     if desc.get('slow_accept'):
         res.count('runs_with_slow_accepted_candidates')
+    if desc.get('chain'):
+        res.count('runs_chain_' + desc['chain'])
     witness = dict(desc)
     witness['opts'] = opts
     try:
@@ -315,7 +346,8 @@ def run_case(res, base, case, idx, second_run):
                 f'({a["kind"]}) at node {a["node"]!r} is still accepted by '
                 f'the command', witness)
             return
-        if (second_run or desc.get('chain') in ('indexed', 'rename')) and \
+        if (second_run or desc.get('chain') in ('indexed', 'rename',
+                                                'reborn')) and \
                 run.out_bytes is not None:
             res.count('second_runs')
             groups = [o for o in desc['mutator_options']]
